@@ -1,10 +1,11 @@
 #!/bin/sh
-# tools/ingestseeded.sh Cnn — copy /tmp/mut/Cnn/out/m*/ into seeded/Cnn-m*/, confirm each, run the check on each.
-p=$1
+# tools/ingestseeded.sh Cnn — copy /tmp/mut/Cnn/out/m*/ into seeded/Cnn-m*/, confirm each, run the check on each (new ones only).
+p=$1; ids=""
 for d in /tmp/mut/$p/out/m*/; do
   i=$(basename $d); id=$p-$i
   [ -f $d/patch.diff ] || continue
   mkdir -p /verif/seeded/$id; cp $d/patch.diff $d/demo_test.go $d/meta.json /verif/seeded/$id/
+  ids="$ids $id"
   if /verif/tools/confirmseeded.sh $id; then echo "CONFIRMED $id"; else echo "NOT-CONFIRMED $id"; fi
 done
-cd /verif && python3 tools/runseeded.py $(ls seeded | grep "^$p-m")
+cd /verif && python3 tools/runseeded.py $ids
